@@ -194,6 +194,14 @@ class Multisphere(ScatteringTheory):
             scatterer.r * medium_wavevec, self.niter, self.eps,
             self.qeps1, self.qeps2, self.meth, (0, 0), suppress_flag)
 
+        # a negative order reports an expansion cut off by the compiled
+        # array limits (nod, notd in scfodim.for) before it converged
+        if lmax < 0:
+            msg = ("sphere too large for the compiled expansion order nod"
+                   if lmax == -1 else "cluster too large for the compiled "
+                   "expansion order notd")
+            raise InvalidScatterer(scatterer, msg + " (see scfodim.for)")
+
         # converged == 1 if the SCSMFO iterative solver converged
         # f2py converts F77 LOGICAL to int
         if not converged:
